@@ -29,7 +29,7 @@ COMPONENTS_STUB = ["kernel TCP (SimNet pipes)", "event loop clock/selector (VLoo
 ASSUMPTIONS = ["a message is attributed to its flow by the unique token in its start line / marker header",
                "bodies are not streamed in these scenarios (a streamed body has left before the hook that could hold it)"]
 EXPECTED_PROBES = ["held_request", "held_response", "resumed", "edited_resume", "killed_while_held", "client_left_while_held",
-                   "pipelined_behind_held"]
+                   "pipelined_behind_held", "killed_streamed_response"]
 
 TOKQ = re.compile(rb"/r(\d+)")
 
@@ -93,6 +93,15 @@ def generate(rng, tier):
         pol2.append({"hook": hk, "nth": 0, "latency": 0, "action": "intercept",
                      "then": r.choice(["resume", "edit_resume"]), "after": r.choice([1.5 * T, 2.5 * T]), "which": "response",
                      "edits": [{"k": "set_header", "name": "X-Edited", "value": "held"}]})
+    rs = rng.at("c11-streamed")
+    if rs.random() < 0.15:
+        # a response whose body is streamed (so head and body are already at the client) is held at the `response`
+        # hook and then killed or resumed: after a kill nothing more of it (chunked end marker) may follow
+        k = rs.randrange(0, nreq)
+        pol2 = [p for p in pol2 if not (p["hook"] in ("responseheaders", "response") and p["nth"] == k)]
+        pol2.append({"hook": "responseheaders", "nth": k, "latency": 0, "action": "stream", "which": "response"})
+        pol2.append({"hook": "response", "nth": k, "latency": 0, "action": "intercept", "which": "response", "edits": [],
+                     "then": rs.choice(["kill", "kill", "resume"]), "after": rs.choice([0.0, 0.001, 0.1, 1.0])})
     return {"family": "http1-" + mode.split(":")[0], "modes": [mode], "eager": r.random() < 0.5,
             "options": options,
             "clients": [{"steps": steps, "methods": methods,
@@ -154,7 +163,14 @@ def oracle(sc, obs):
             bump("client_left_while_held")
         # responses that mitmproxy forwards in a streaming fashion do not exist in these scenarios, so a response
         # held at responseheaders/response must not have started to reach the client
-        if t_first is not None and t_first < released_at - 1e-9 and t_first >= t0 - 1e-9:
+        snap_rh = obs.done_snaps.get((fid, "responseheaders"))
+        streamed_response = bool(not is_req and hook == "response" and snap_rh and snap_rh["response"]
+                                 and snap_rh["response"]["stream"])
+        if streamed_response:
+            # head and body were relayed when they arrived, before the `response` hook: only what follows the hold
+            # (the end of the message) is held
+            bump("held_streamed_response")
+        elif t_first is not None and t_first < released_at - 1e-9 and t_first >= t0 - 1e-9:
             v.append({"class": "forwarded_while_intercepted", "key": {"hook": hook},
                       "msg": f"flow r{k} intercepted at {hook} from t={t0:.6f}: its {'request' if is_req else 'response'} "
                              f"reached the destination at t={t_first:.6f}, before the release at t={released_at}"})
@@ -202,6 +218,17 @@ def oracle(sc, obs):
                 v.append({"class": "forwarded_after_kill", "key": {"hook": hook},
                           "msg": f"flow r{k} killed at t={t1:.6f} while held at {hook}, but its "
                                  f"{'request' if is_req else 'response'} reached the destination at t={later[0][0]:.6f}"})
+            if not is_req and len(obs.clients) == 1:
+                # killing a response ends the client connection: not a single further byte (e.g. the chunked end
+                # marker of a response whose body had been streamed before the hold) may follow
+                tail = [(t, d) for c in obs.clients for t, d in c.rx_log if t > t1 + 1e-9]
+                if tail:
+                    bump("bytes_after_kill")
+                    v.append({"class": "forwarded_after_kill", "key": {"hook": hook, "what": "bytes_after_kill"},
+                              "msg": f"flow r{k} killed at t={t1:.6f} while held at {hook}, but the client still received "
+                                     f"{tail[0][1][:40]!r} at t={tail[0][0]:.6f}"})
+            if getattr(f.response, "stream", False) and not is_req:
+                bump("killed_streamed_response")
             if f.error is None:
                 v.append({"class": "killed_without_error", "key": {"hook": hook},
                           "msg": f"flow r{k} killed at t={t1:.6f} has no error at quiescence"})
